@@ -103,7 +103,7 @@ def fingerprint(v):
         return ("id", type(v).__name__)
 
 
-def execute(graph, order=None, mode="dfs", chooser=None, watch=False, rerun=False):
+def execute(graph, order=None, mode="dfs", chooser=None, watch=False, rerun=False, check_final=False):
     """Run all tasks. Returns (values, report). With ``watch`` every task's
     dependencies (and every other live value sharing memory with them) are
     fingerprinted before and after: report['mutations'] lists offenders. With
@@ -113,6 +113,7 @@ def execute(graph, order=None, mode="dfs", chooser=None, watch=False, rerun=Fals
     if order is None:
         order = topo_order(deps, dependents, mode=mode, chooser=chooser)
     values = {}
+    created = {}
     report = {"mutations": [], "nondeterministic": [], "order_len": len(order)}
     for k in order:
         node = nodes[k]
@@ -129,6 +130,11 @@ def execute(graph, order=None, mode="dfs", chooser=None, watch=False, rerun=Fals
             if fingerprint(out) != fingerprint(out2):
                 report["nondeterministic"].append(k)
         values[k] = out
+        if check_final:
+            created[k] = fingerprint(out)
+    if check_final:
+        # every value must still be what it was when its task produced it
+        report["mutated_later"] = [k for k in order if fingerprint(values[k]) != created[k]]
     return values, report
 
 
